@@ -176,6 +176,26 @@ Theorem C15_implicit_list_item_refuted :
 Proof. exact implicit_list_item_refuted. Qed.
 Print Assumptions C15_implicit_list_item_refuted.
 
+(* content parsed again later (pending targets, page-based counters): the re-parse prints the element counters of
+   the FIRST parse, whatever the builder's counter state has become, and page counters only for names that were
+   not element counters there *)
+Theorem C15_reparse_keeps_first_parse_value st live mixin n :
+  values st n <> [] -> parse_again (first_parse st) live mixin n = values st n.
+Proof. exact (reparse_keeps_first_parse_value st live mixin n). Qed.
+Print Assumptions C15_reparse_keeps_first_parse_value.
+
+Theorem C15_reparse_mixes_in_page_counters st live mixin n :
+  values st n = [] -> parse_again (first_parse st) live mixin n = lookup_counter mixin n.
+Proof. exact (reparse_mixes_in_page_counters st live mixin n). Qed.
+Print Assumptions C15_reparse_mixes_in_page_counters.
+
+Theorem C15_document_reparse nd : ok_tree nd ->
+  exists st' o, run_node init_state nd = Some (st', o) /\
+    Forall2 (fun ob r => forall live mixin n, r n <> [] -> parse_again (mkBox ob) live mixin n = r n)
+            o (snd (ref_node init_levels nd)).
+Proof. exact (document_reparse nd). Qed.
+Print Assumptions C15_document_reparse.
+
 (* nested ol / li (user-agent rules: ol resets list-item, li increments it implicitly): the model of build.py
    gives every list item the 1-based positions of the items along its path, for every nesting *)
 Theorem C15_nested_list_numbering t :
